@@ -1,15 +1,18 @@
 ---- MODULE Mon_ConnPool ----
 (* Property monitor for C28 on recorded executions of the REAL pooled client (inet.Client      *)
-(* SendProto / SendBatchProto, remoteclient RemoteAsk / RemoteBatchAsk).  It knows only the     *)
-(* contract: an exchange that returns without error returns exactly the replies to its own      *)
-(* requests, in request order (the echo receivers answer request id i with reply id i).         *)
-(* Lines with op Read(fin=1) / Timeout / Result carry want, got, err.  Deviations are printed:  *)
+(* SendProto / SendBatchProto, and Ask / BatchAsk between two real actor systems).  It knows    *)
+(* only the contract: an exchange that returns without error returns exactly the replies to     *)
+(* its own requests, in request order (the echo receivers answer request id i with reply i).    *)
+(* Lines with op Reply(fin=1) / Timeout / Result carry want, got, err.  Deviations are printed: *)
 (*   <<"MISMATCH", line, caller, want, got>>                                                    *)
+(* C29 for asks: "inj" lines (req = message id, x = id put into the caller's context) and       *)
+(* "recv" lines (req = message id, x = id found in ReceiveContext.Context() at the receiver):   *)
+(*   <<"MDMISMATCH", line, message id, restored>>                                               *)
 EXTENDS Integers, Sequences, TLC, Json
 Trace == ndJsonDeserialize("trace.ndjson")
-VARIABLES l, nres, nok
-Init == l = 1 /\ nres = 0 /\ nok = 0
-IsResult(e) == (e.op = "Read" /\ e.fin = 1) \/ e.op \in {"Timeout", "Result"}
+VARIABLES l, nres, nok, inj
+Init == l = 1 /\ nres = 0 /\ nok = 0 /\ inj = {}
+IsResult(e) == (e.op = "Reply" /\ e.fin = 1) \/ e.op \in {"Timeout", "Result"}
 Step ==
   /\ l <= Len(Trace)
   /\ l' = l + 1
@@ -18,11 +21,16 @@ Step ==
      THEN /\ (IF e.err # "" \/ e.got = e.want THEN TRUE ELSE PrintT(<<"MISMATCH", l, e.c, e.want, e.got>>))
           /\ nres' = nres + 1
           /\ nok' = IF e.err = "" THEN nok + 1 ELSE nok
+          /\ UNCHANGED inj
+     ELSE IF e.op = "inj" THEN inj' = inj \cup {<<e.req, e.x>>} /\ UNCHANGED <<nres, nok>>
+     ELSE IF e.op = "recv"
+     THEN /\ (IF <<e.req, e.x>> \in inj THEN TRUE ELSE PrintT(<<"MDMISMATCH", l, e.req, e.x>>))
+          /\ UNCHANGED <<nres, nok, inj>>
      ELSE IF e.op = "End"
-     THEN PrintT(<<"HISTORY", l, nres, nok>>) /\ nres' = 0 /\ nok' = 0
+     THEN PrintT(<<"HISTORY", l, nres, nok>>) /\ nres' = 0 /\ nok' = 0 /\ UNCHANGED inj
      ELSE IF e.op = "Stuck"
-     THEN PrintT(<<"STUCK", l>>) /\ nres' = 0 /\ nok' = 0
-     ELSE IF e.op = "New" THEN nres' = 0 /\ nok' = 0
-     ELSE UNCHANGED <<nres, nok>>
-Spec == Init /\ [][Step]_<<l, nres, nok>>
+     THEN PrintT(<<"STUCK", l>>) /\ nres' = 0 /\ nok' = 0 /\ UNCHANGED inj
+     ELSE IF e.op = "New" THEN nres' = 0 /\ nok' = 0 /\ UNCHANGED inj   \* a slow receiver may log a recv one round late
+     ELSE UNCHANGED <<nres, nok, inj>>
+Spec == Init /\ [][Step]_<<l, nres, nok, inj>>
 ====
